@@ -1,4 +1,5 @@
 """C04 Store holds only complete, verified publication points (K1, K3)."""
+import re
 from lib.facts import norm, path_matches, Site
 from lib.rules import (G, require_guards, arg_desc, agg_sites, who_calls, arg_path, fmt_path, field_writes)
 from lib.tables import describe
@@ -123,8 +124,44 @@ def rule_closure(ctx):
         # every early exit of the closure other than Ok(Some)/Ok(None) is an Err (abort): no "skip this file" path
         from lib.tables import enumerate_paths
         outs = set()
+        n_done = n_item = 0
         for p in enumerate_paths(c, ctx.facts):
             outs.add(p.outcome.split('(')[0] + ('(' + p.outcome.split('(')[1].split('(')[0] if '(' in p.outcome else ''))
+            cm = p.cond_map()
+
+            def lab(rx):
+                # the `?` on a call gives a pass/fail label, the match on its payload a variant label: prefer the variant
+                found = None
+                for v, labs in cm.items():
+                    if re.search(rx, v) and len(labs) == 1:
+                        l = list(labs)[0]
+                        if found is None or found == 'pass':
+                            found = l
+                return found
+            nxt = lab(r'^call:Iterator>?::next\(')
+            if p.outcome.startswith('Result::Ok(Option::None'):
+                n_done += 1
+                ctx.check(nxt == 'None', 'K4', 'generator:Ok(None)<=manifest-list-exhausted',
+                          'the generator signals "all objects written" only when the manifest file list is exhausted',
+                          'the generator returns Ok(None) ("done") on a path where the manifest list is not exhausted (%s): the '
+                          'remaining listed files are silently left out and the incomplete set replaces the stored point'
+                          % {k[:40]: sorted(v) for k, v in cm.items()}, loc=p.ret_site.loc() if p.ret_site else None)
+            elif nxt == 'Some':
+                n_item += 1
+                good = (lab(r'str_from_ascii') == 'Ok' and lab(r'Repository::load_object') == 'Some'
+                        and lab(r'ManifestHash::verify') == 'Ok' and lab(r'^call:PubPoint::process_object$') in ('pass', None))
+                if p.outcome.startswith('Result::Ok(Option::Some'):
+                    ctx.check(good and lab(r'^call:PubPoint::process_object$') == 'pass', 'K4', 'generator:Ok(Some)<=all-checks',
+                              'an object is handed to the store only if it was loaded, matched its hash and was processed',
+                              'the generator yields an object although a check did not pass: %s' % {k[:40]: sorted(v) for k, v in cm.items()})
+                else:
+                    is_err = p.outcome.startswith('Result::Err(UpdateError::Abort') or 'load_object' in p.outcome or 'process_object' in p.outcome
+                    ctx.check(is_err, 'K4', 'generator:listed-file-problem=>Err',
+                              'a listed file that is missing / mismatching / unprocessable aborts the update',
+                              'for a listed file the generator returns `%s` under %s instead of aborting the update'
+                              % (p.outcome[:60], {k[:40]: sorted(v) for k, v in cm.items()}), loc=p.ret_site.loc() if p.ret_site else None)
+        ctx.floor('K4', 'generator paths: exhausted', n_done, 1)
+        ctx.floor('K4', 'generator paths: per listed file', n_item, 6)
         ctx.extra['generator_outcomes'] = sorted(outs)
 
 
